@@ -186,14 +186,27 @@ def library_names(ctx):
     return sorted(f[:-5] for f in os.listdir(d) if f.endswith(".json"))
 
 
+def load_failure(ctx, name, e):
+    """the library no longer loads: some accepted item of an imported theory has an extension the
+    theory refuses (or parse_item itself raises)"""
+    ctx.violation("%s:load" % name, "the imports of library theory %s cannot be loaded: %s: %s" % (
+        name, type(e).__name__, str(getattr(e, "str", e))[:300]), {"stream": "library-load", "theory": name})
+
+
 def run_library(ctx, names):
     from logic import basic
     from kernel import theory
     nitems = 0
     for name in names:
         data = basic.load_json_data(name)
-        with time_limit(600):
-            basic.load_theory(name, limit='start')
+        try:
+            with time_limit(600):
+                basic.load_theory(name, limit='start')
+        except Timeout:
+            raise
+        except Exception as e:  # noqa
+            load_failure(ctx, name, e)
+            continue
         for idx, raw in enumerate(data['content']):
             with time_limit(120):
                 r = ItemRun(raw).run()
@@ -210,6 +223,11 @@ def run_library(ctx, names):
                 ctx.violation("%s:%s:%s" % (name, item_name(r.item), r.status),
                               "library item %s %s of theory %s: %s (%s)" % (ty, item_name(r.item), name, r.status, r.err),
                               {"stream": "library", "theory": name, "index": idx, "raw": raw})
+            if ty == "def" and r.status == "accepted":
+                for cond in not_a_definition(r.item.name, r.item.type, r.item.prop):
+                    ctx.violation("%s:%s:not-a-definition:%s" % (name, item_name(r.item), cond),
+                                  "library definition %s of theory %s violates the side condition '%s'" % (item_name(r.item), name, cond),
+                                  {"stream": "library", "theory": name, "index": idx, "raw": raw, "defect": "not-a-definition"})
             for cls, detail in r.defects:
                 ctx.violation("%s:%s:%s" % (name, item_name(r.item), cls),
                               "library item %s %s of theory %s: %s" % (ty, item_name(r.item), name, detail),
@@ -985,6 +1003,41 @@ def _parse_def_prop(raw):
         return None
 
 
+def not_a_definition(name, T, prop):
+    """The syntactic half of the property, checked directly on the accepted item (independent of the
+    model and of `Type.is_apart`): equation; head = the constant; arguments are distinct variables;
+    free (and schematic) variables of the rhs are among them; type variables of the rhs occur in the
+    type of the constant; the constant does not occur on the rhs at a type that has a common
+    instance with `T`.  Returns the list of violated conditions."""
+    from kernel.term import Const
+    bad = []
+    if not prop.is_equals():
+        return ["not-an-equation"]
+    f, args = prop.lhs.strip_comb()
+    if not (f.is_const() and f.name == name and f.T == T):
+        bad.append("head-is-not-the-constant")
+    if not all(a.is_var() for a in args):
+        bad.append("argument-not-a-variable")
+    elif len(set(args)) != len(args):
+        bad.append("repeated-argument")
+    rhs = prop.rhs
+    if not set(rhs.get_vars()) | set(rhs.get_svars()) <= set(a for a in args if a.is_var()):
+        bad.append("free-variable-on-rhs")
+    tvT = sx_ty_tvars(kwire.ty_to(T), [])
+    rhs_s = kwire.term_to(rhs)
+    if not set(sx_term_tvars(rhs_s, [])) <= set(tvT):
+        bad.append("type-variable-not-in-type-of-constant")
+    stT = set(str(v) for v in T.get_stvars())
+    if not set(str(v) for v in rhs.get_stvars()) <= stT:
+        bad.append("schematic-type-variable-not-in-type-of-constant")
+    T_s = kwire.ty_to(T)
+    for (n, S) in sx_consts(rhs_s, []):
+        if n == sexp.enc(name) and sx_unify(T_s, rename_apart(S, "~")) is not None:
+            bad.append("constant-occurs-on-rhs")
+            break
+    return bad
+
+
 def declared_constants(names):
     """(name, type-sexp, theory, item-ty) of every constant the loaded items declare, except the
     generic declarations of overloaded constants"""
@@ -1062,6 +1115,10 @@ def run_generated(ctx, ncases):
         model_lines.append(sexp.dumps(["defok", name_s, T_s, prop_s]))
         model_owner.append((ci, kind, raw, r))
         if r.status == "accepted":
+            for cond in not_a_definition(raw['name'], T, prop):
+                ctx.violation("not-a-definition:%s:%s" % (cond, key_raw[:300]),
+                              "accepted `def` item violates the side condition '%s': %s :: %s, %s" % (cond, raw['name'], raw['type'], raw['prop']),
+                              {"stream": "generated", "base": GEN_BASE, "raw": raw, "defect": "not-a-definition", "kind": kind})
             # newness: the instance must not overlap a declared one
             for (dn, dT, dth, dty) in decl:
                 if dn == raw['name'] and sx_unify(T_s, rename_apart(dT, "~")) is not None:
@@ -1179,8 +1236,15 @@ def run(ctx):
         "oracle instances whose evaluation cost exceeds the budget are skipped (counted)"]
     from logic import basic
     basic.load_metadata()
-    with time_limit(600):
-        basic.load_theory('real')      # before anything that imports data.real (see C12: nested load_theory)
+    try:
+        with time_limit(600):
+            basic.load_theory('real')      # before anything that imports data.real (see C12: nested load_theory)
+    except Timeout:
+        raise
+    except Exception as e:  # noqa
+        load_failure(ctx, 'real', e)
+        ctx.broken("library:c11:load", "theory real does not load; the streams need it")
+        return
     names = library_names(ctx)
     order = basic.get_import_order(names)
     if ctx.tier == "quick":
@@ -1200,8 +1264,21 @@ def replay(ctx, rp):
     from kernel import theory
     r = rp["replay"]
     basic.load_metadata()
-    with time_limit(600):
-        basic.load_theory('real')
+    try:
+        with time_limit(600):
+            basic.load_theory('real')
+    except Timeout:
+        raise
+    except Exception as e:  # noqa
+        print("theory real does not load:", type(e).__name__, getattr(e, "str", e))
+        return True
+    if r.get("stream") == "library-load":
+        try:
+            basic.load_theory(r["theory"])
+            return False
+        except Exception as e:  # noqa
+            print(type(e).__name__, getattr(e, "str", e))
+            return True
     if r.get("stream") == "library":
         data = basic.load_json_data(r["theory"])
         basic.load_theory(r["theory"], limit='start')
@@ -1215,6 +1292,11 @@ def replay(ctx, rp):
     res = ItemRun(raw).run()
     print(res.status, res.err, res.defects)
     cls = r.get("defect")
+    if cls == "not-a-definition":
+        if res.status != "accepted":
+            return False
+        parsed = parse_def_prop(raw)
+        return parsed is not None and bool(not_a_definition(raw['name'], parsed[0], parsed[1]))
     if cls in ("non-conservative", "redeclared-instance"):
         if res.status != "accepted":
             return False
@@ -1227,18 +1309,24 @@ def replay(ctx, rp):
 
 
 MANIFEST = {
-    "text": "Lean theorems about the model `defOK` of the (fixed) side conditions of Definition.parse: an accepted definition has, in every finite "
-            "standard model and for every interpretation of the old signature, exactly the interpretation of the new constant given by its right-hand "
-            "side, under which the defining equation holds for all values of all variables (def_conservative), so a satisfiable set of sequents stays "
-            "satisfiable with the equation added (def_keeps_consistency); each side condition has a counterexample theorem; the equation of an accepted "
-            "definition passes check_thm_type (def_ext_welltyped). defOK is tied to server/items.py by differential execution on generated item "
-            "descriptions (the parser's output is what both sides see); every accepted generated definition is searched for a finite counter-model "
-            "with the same `sem`; every item of the library files and generated datatypes / functions / inductive predicates / axioms are run through "
-            "parse_item, get_extension (checked with Theory.check_type/check_term, Thm.check_thm_type over the extended theory), and both round trips "
-            "exactly as monitor.check_theory compares them.",
-    "note": "Trusted: Lean kernel, axioms propext/Classical.choice/Quot.sound; the parser/printer (C07/C08); the hand model's fidelity is as good as the "
-            "generated items exercise it. Fun/Inductive/Datatype/Axiom are axiomatic: no conservativity claim. For overloaded constants newness is "
-            "the instance check added to add_term_sig (fix C11-2); generic axioms about an overloaded constant constrain later instances by design.",
+    "text": "Lean theorems about the model `defOK` of the (fixed) side conditions of Definition.parse: for an accepted definition of a new constant, in "
+            "every finite standard model and for every interpretation of the old signature there is a value of the new constant (the curried function "
+            "given by the right-hand side) under which the defining equation holds for all values of all variables (def_conservative); the same for ALL "
+            "type instances of the equation simultaneously, changing the valuation only at the instances of the constant's type "
+            "(def_conservative_poly, from def_conservative_family); a satisfiable set of sequents stays satisfiable with the equation added "
+            "(def_keeps_consistency); the generated theorem passes check_thm_type (def_ext_welltyped); one counterexample theorem per side condition "
+            "(self reference, extra type variable, free variable, non-variable argument: no interpretation exists; repeated argument: the "
+            "interpretation is not unique). defOK is tied to server/items.py by differential execution on generated item descriptions (both sides see "
+            "the parser's output); every accepted generated definition is checked against the side conditions directly and searched for a finite "
+            "counter-model over several type instances with the same `sem`; every item of the 43 library files and generated datatypes / recursive "
+            "functions / inductive predicates / axioms / theorems / constants are run through parse_item, get_extension (checked with "
+            "Theory.check_type/check_term and Thm.check_thm_type over the extended theory) and both round trips as monitor.check_theory compares them.",
+    "note": "Trusted: Lean kernel, axioms propext/Classical.choice/Quot.sound; the parser/printer (C07/C08) whose output is the object of the side "
+            "conditions; the hand model's fidelity is as good as the generated items exercise it. Fun/Inductive/Datatype/Axiom/Constant items are "
+            "axiomatic: no conservativity claim, only well-typed extensions and round trips. For overloaded constants newness is the instance check "
+            "added to add_term_sig (fix C11-2); generic axioms about an overloaded constant constrain later instances by design. `is_apart` is a "
+            "sufficient test for 'no common instance' (constructor clash), so some harmless definitions are rejected. Uniqueness of the interpretation "
+            "(where distinctness of the arguments is needed) is shown only by the counterexample, not as a theorem.",
     "design_ref": "DESIGN.md 4/C11",
 }
 FINDINGS = [
